@@ -86,7 +86,7 @@ def plan(tier, seed):
                     jobs.append(("lock", (P, A, 0, seed), si, d, first, 20 ** d // n_opt))
             else:
                 jobs.append(("lock", (P, A, 0, seed), si, d, -1, 20 ** d))
-    for k in range(6 if tier == "quick" else 12):
+    for k in range(7 if tier == "quick" else 13):
         jobs.append(("denovo", k, seed, tier == "thorough" and k == 0, 30000))
     jobs.append(("call", seed, 20000))
     for name in ("trio", "mixed_2_4_3", "tau_1_3", "halfsibs", "duo_unbalanced"):
@@ -371,7 +371,7 @@ def job_denovo(job):
     _, k, seed, big, _ = job
     r = Result()
     payload = {"kind": "job", "job": job}
-    cfgs = [(2, (2, 2, 2), (1.0,)), (4, (2, 2, 2), (0.3, 1.0)), (4, (2, 3, 2, 2), (0.1, 0.5, 1.0)), (3, (3, 2), (0.5, 1.0)), (6, (2, 2), (1.0,)), (4, (2, 2, 2, 2, 2), (0.05, 0.3, 1.0)),
+    cfgs = [(2, (2, 2, 2), (1.0,)), (3, (2, 2, 2), (0.0, 0.5, 1.0)), (4, (2, 2, 2), (0.3, 1.0)), (4, (2, 3, 2, 2), (0.1, 0.5, 1.0)), (3, (3, 2), (0.5, 1.0)), (6, (2, 2), (1.0,)), (4, (2, 2, 2, 2, 2), (0.05, 0.3, 1.0)),
             (2, (2, 2), (0.5, 1.0)), (3, (2, 2, 2), (0.2, 0.6, 1.0)), (4, (3, 3), (1.0,)), (5, (2, 2, 2), (0.4, 1.0)), (4, (2, 2), (0.01, 1.0)), (2, (3, 3, 2), (0.7, 1.0))]
     P, A, temps = cfgs[k % len(cfgs)]
     inst = kasm.Instance(P, A, 1, seed + k)
